@@ -154,6 +154,9 @@ func resolveWLGen(p *core.Program) (*wlGen, string) {
 			g.wordDraw, g.wordViaPick = s, true
 			continue
 		}
+		if len(s.Call.Args) == 0 {
+			return nil, "choice site in WLRecipe.Generate takes no bound (" + core.Describe(s.Call.Value) + "): not one of the recognised draws"
+		}
 		b := s.Call.Args[0]
 		switch {
 		case isConstU(b, 2):
